@@ -41,6 +41,9 @@ type paramCase struct {
 	// sizes
 	Types []string `json:"types,omitempty"`
 
+	// archskip
+	Arch []archOperand `json:"arch,omitempty"`
+
 	// plumbing
 	Params   map[string]string `json:"params,omitempty"`
 	FrontEnd string            `json:"front_end,omitempty"`
@@ -188,7 +191,9 @@ func drawParamCase(rt *rapid.T, rec *core.Recorder, env *gen.Env) *paramCase {
 			a, b = b, a
 		}
 		pc.T1, pc.T2 = a, b
-	case k < 88:
+	case k < 84:
+		drawArchCase(rt, pc)
+	case k < 90:
 		pc.Kind = "sizes"
 		n := rapid.IntRange(3, 12).Draw(rt, "ntypes")
 		for i := 0; i < n; i++ {
@@ -312,6 +317,8 @@ func checkC14(t core.TB, rec *core.Recorder, env *gen.Env, pc *paramCase) {
 		rec.Count("monotonic:" + key)
 	case "sizes":
 		checkSizes(t, rec, env, pc)
+	case "archskip":
+		checkArchSkip(t, rec, env, pc)
 	case "plumbing":
 		checkPlumbing(t, rec, env, pc)
 	}
